@@ -39,6 +39,10 @@ def build(tables_present, versions_variant, exprs_on, ff):
         if n in exprs_on:
             bi.symbolic_expressions[i * 4] = gtirb.SymAddrConst(0, S[n])
     bi.symbolic_expressions[17] = gtirb.SymAddrAddr(1, 0, S["K1"], S["A"]) if "AA" in exprs_on else gtirb.SymAddrConst(0, S["K2"])
+    # expressions naming two deletable symbols, in both operand orders (the force flags of the two may differ)
+    for off, tag, (x, y) in ((21, "AB", ("A", "B")), (25, "BA", ("B", "A")), (29, "AK", ("A", "K1"))):
+        if tag in exprs_on:
+            bi.symbolic_expressions[off] = gtirb.SymAddrAddr(1, 0, S[x], S[y])
     if "elfSymbolInfo" in tables_present:
         _auxdata.elf_symbol_info.set(m, {s: (0, "FUNC", "GLOBAL", "DEFAULT", 0) for s in S.values()})
     if "elfSymbolTabIdxInfo" in tables_present:
@@ -148,20 +152,21 @@ def bounded(tier, seed):
     def run():
         br = BResult()
         br.bound = ("universe of 4 symbols (A, B deletable; K1, K2 kept); deletions {A}, {B}, {A,B} x force flags; every aux table all-present, "
-                    "each-absent-in-turn and all-absent; symbolic expressions on every subset of {A, B, K1, AA=SymAddrAddr(K1, A)}; 12 symbol-version id "
+                    "each-absent-in-turn and all-absent; symbolic expressions on subsets of {A, B, K1, AA=SymAddrAddr(K1, A), AB=SymAddrAddr(A, B), BA=SymAddrAddr(B, A), AK=SymAddrAddr(A, K1)}; 12 symbol-version id "
                     "assignments (shared / exclusive / base ids, definitions and requirements); ELF and PE")
         br.clauses = ["C19/no-table-mentions-a-deleted-symbol-and-nothing-else-changes", "C19/SymbolUsesRemainingError-iff-unforced-symbol-still-used",
                       "C19/forced-deletion-drops-exactly-the-using-expressions", "C19/version-definitions-and-requirements-dropped-iff-unused",
                       "C19/module-still-serialises"]
         table_sets = [tuple(ALL_TABLES), ()] + [tuple(t for t in ALL_TABLES if t != x) for x in ALL_TABLES]
         vvars = [(2, 2, 2, 3), (2, 3, 3, 3), (2, 3, 1, 1), (4, 4, 5, 6), (4, 5, 5, 6), (6, 4, 4, 5), (4, 6, 6, 5), (2, 4, 1, 5), (3, 6, 2, 4), (1, 1, 2, 4), (5, 5, 5, 5), (6, 2, 6, 2)]
-        expr_sets = [(), ("A",), ("B",), ("A", "B"), ("A", "K1"), ("AA",), ("K1",), ("A", "B", "K1", "AA")]
+        expr_sets = [(), ("A",), ("B",), ("A", "B"), ("A", "K1"), ("AA",), ("K1",), ("A", "B", "K1", "AA"), ("AB",), ("BA",), ("AK",), ("AB", "K1"), ("BA", "AK"),
+                     ("AB", "BA", "AA", "AK")]
         distinct = set()
         for ff in (gtirb.Module.FileFormat.ELF, gtirb.Module.FileFormat.PE):
             for tp in table_sets:
                 vs = vvars if (tp == tuple(ALL_TABLES)) else vvars[:2]
                 for vv in vs:
-                    es = expr_sets if vv == vvars[0] else expr_sets[:3]
+                    es = expr_sets if vv == vvars[0] else (expr_sets[:3] + expr_sets[8:10])
                     for ex in es:
                         for deleted in (("A",), ("B",), ("A", "B")):
                             for fl in itertools.product((True, False), repeat=len(deleted)):
